@@ -261,7 +261,7 @@ func init() {
 		Replay: func(c *fw.Ctx, w json.RawMessage) {
 			fsx.ReplayWitness(c, mon, w)
 		},
-		Rule: "every header value and body of every response of the C01 exploration (385 trees x all single requests + random histories) is scanned for the absolute path of the served directory (a long unique name), its symlink-resolved form and the sandbox path; plus a hostile-name slice (300-byte names, 1200-level paths, control characters: ENAMETOOLONG etc.) and a permission slice (davserver child running as uid 65534 over mode-000 / read-only entries: EACCES for open, readdir, create, unlink, mkdir, rename) and an OS-fault slice (davserver child under strace fault injection: 9 syscall groups x 8 (thorough 16) errno values such as EIO, ENOSPC, EMFILE, EXDEV, ELOOP x 25 requests) and a link slice (every method on, below, from and onto symbolic links placed in the served directory: to a directory, to a file, absolute, dangling, dangling below a missing directory, looping, to /dev/null, out of the root; ~900 requests, each on a fresh tree). " +
+		Rule: "every header value and body of every response of the C01 exploration (385 trees x all single requests + random histories) is scanned for the absolute path of the served directory (a long unique name), its symlink-resolved form and the sandbox path; plus a hostile-name slice (300-byte names, 1200-level paths, control characters: ENAMETOOLONG etc.) and a permission slice (davserver child running as uid 65534 over mode-000 / read-only entries: EACCES for open, readdir, create, unlink, mkdir, rename) and an OS-fault slice (davserver child under strace fault injection: 9 syscall groups x 8 (thorough 16) errno values such as EIO, ENOSPC, EMFILE, EXDEV, ELOOP x 25 requests) and a link slice (every method on, below, from and onto symbolic links placed in the served directory: to a directory, to a file, absolute, dangling, dangling below a missing directory, looping, to a Unix socket, into procfs, out of the root; ~900 requests, each on a fresh tree). " +
 			"distinct_nontrivial counts distinct (method, abstract request/tree class, status) observations.",
 		Assumptions: []string{
 			"the root directory name is long and unique, so a substring match is a disclosure",
